@@ -213,6 +213,8 @@ class repeated_node_with_interleaving_comments_property(
         return wrapper
 
     def __set__(self, instance: _U, value: RepeatedNodeWithInterleavingCommentsWrapper[_M]) -> None:
+        if value is instance.__dict__.get(self._attr):
+            return  # model.raw_xs_with_comments += [...] assigns the list back to itself
         repeated = self._inner_field.__get__(instance)
         properties.replace_node(repeated, value.repeated)
         self._inner_field.__set__(instance, value.repeated)
